@@ -259,6 +259,78 @@ example : equals exA (.table exB) = true := by decide
 example : equals exA (.table { exB with units := ["m".toList, "text".toList, "mm".toList] }) = false := by decide
 example : exA.sub = exB.sub := rfl
 
+/-! ### transitivity (with reflexivity and symmetry: an equivalence on rectangular tables of one class) -/
+
+theorem ceq_trans (a b c : Sc) (h1 : ceq a b) (h2 : ceq b c) : ceq a c := by
+  cases a <;> cases b <;> cases c <;> simp_all [ceq]
+
+/-- a pointwise relation along `zip` composes when the first two lists have the same length -/
+theorem zip_trans {α} (R : α → α → Prop) (hR : ∀ a b c, R a b → R b c → R a c) :
+    ∀ (xs ys zs : List α), xs.length = ys.length →
+      (∀ p ∈ xs.zip ys, R p.1 p.2) → (∀ p ∈ ys.zip zs, R p.1 p.2) → ∀ p ∈ xs.zip zs, R p.1 p.2 := by
+  intro xs
+  induction xs with
+  | nil => intro ys zs _ _ _ p hp; simp at hp
+  | cons x xs ih =>
+    intro ys zs hl h1 h2 p hp
+    cases ys with
+    | nil => simp at hl
+    | cons y ys =>
+      cases zs with
+      | nil => simp at hp
+      | cons z zs =>
+        simp only [List.zip_cons_cons, List.mem_cons, forall_eq_or_imp] at h1 h2
+        simp only [List.length_cons, Nat.add_right_cancel_iff] at hl
+        rcases List.mem_cons.mp hp with rfl | hp
+        · exact hR _ _ _ h1.1 h2.1
+        · exact ih ys zs hl h1.2 h2.2 p hp
+
+/-- row against row: same width, labels equal by value, cells pairwise equal by value -/
+def rowEq (r s : Sc × List Sc) : Prop :=
+  r.2.length = s.2.length ∧ ceq r.1 s.1 ∧ ∀ c ∈ r.2.zip s.2, ceq c.1 c.2
+
+theorem rowEq_trans (r s t : Sc × List Sc) (h1 : rowEq r s) (h2 : rowEq s t) : rowEq r t :=
+  ⟨h1.1.trans h2.1, ceq_trans _ _ _ h1.2.1 h2.2.1,
+    zip_trans ceq ceq_trans r.2 s.2 t.2 h1.1 h1.2.2 h2.2.2⟩
+
+/-- for rectangular tables with the same column names, "labels and cells agree" is `rowEq` along the rows -/
+theorem rowEq_of_same (a b : Tbl) (ra : Rect a) (rb : Rect b) (hcols : a.colNames = b.colNames)
+    (hlab : SameLabels a b) (hcells : SameCells a b) : ∀ rs ∈ a.rows.zip b.rows, rowEq rs.1 rs.2 := by
+  intro rs hrs
+  have hm := List.of_mem_zip hrs
+  exact ⟨(ra _ hm.1).trans (by rw [hcols, rb _ hm.2]), hlab rs hrs, hcells rs hrs⟩
+
+/-- **transitive** for rectangular tables of the same class (any index labels, any missing flavours):
+    the comparison composes, so together with `equals_refl` and `equals_symm` it is an equivalence.
+    Without `Rect` the zip in `_df_elements_all_equal_or_same` truncates and transitivity fails
+    (`trans_needs_rect`). -/
+theorem equals_trans (a b c : Tbl) (hab : isInstance b a = true) (hbc : isInstance c b = true)
+    (hac : isInstance c a = true) (ra : Rect a) (rb : Rect b) (rc : Rect c)
+    (h1 : equals a (.table b) = true) (h2 : equals b (.table c) = true) :
+    equals a (.table c) = true := by
+  rw [equals_iff_labelled a b hab ra rb] at h1
+  rw [equals_iff_labelled b c hbc rb rc] at h2
+  rw [equals_iff_labelled a c hac ra rc]
+  obtain ⟨⟨n1, d1, c1, u1⟩, l1, lab1, cells1⟩ := h1
+  obtain ⟨⟨n2, d2, c2, u2⟩, l2, lab2, cells2⟩ := h2
+  have hrow := zip_trans rowEq rowEq_trans a.rows b.rows c.rows l1
+    (rowEq_of_same a b ra rb c1 lab1 cells1) (rowEq_of_same b c rb rc c2 lab2 cells2)
+  exact ⟨⟨n1.trans n2, fun d => (d1 d).trans (d2 d), c1.trans c2, u1.trans u2⟩, l1.trans l2,
+    fun rs hrs => (hrow rs hrs).2.1, fun rs hrs => (hrow rs hrs).2.2⟩
+
+/-- what `Rect` excludes: rows narrower than the header make the cell streams of different length,
+    the `zip` stops at the shorter one, and the comparison no longer composes -/
+theorem trans_needs_rect :
+    let wide (v : Str) : Tbl := { exA with rows := [(.num "0".toList, [.num "1".toList, .str v, .miss .nan])] }
+    let short : Tbl := { exA with rows := [(.num "0".toList, [.num "1".toList])] }
+    equals (wide "p".toList) (.table short) = true ∧ equals short (.table (wide "q".toList)) = true ∧
+    equals (wide "p".toList) (.table (wide "q".toList)) = false := by decide
+
+/-- the hypotheses of `equals_trans` are met by a non-trivial triple (NaN ↔ None ↔ pd.NA) -/
+example : equals exA (.table exB) = true ∧
+    equals exB (.table { exB with rows := exB.rows.map (fun r => (r.1, r.2.map (fun c => if isna c then .miss .nat else c))) }) = true := by
+  decide
+
 /-- tz-aware timestamps are equal iff they are the same instant; never equal to a tz-naive one -/
 example : equalOrSame (.tsz "1577880000000000000".toList) (.tsz "1577880000000000000".toList) = true ∧
     equalOrSame (.tsz "1577880000000000000".toList) (.ts "1577880000000000000".toList) = false ∧
